@@ -3,7 +3,9 @@ SPECIFICATION Spec
 CONSTANTS
   Chunk = 2
   Limit = 8
-  MaxStream = 11
+  StreamLens <- SL11
+  PullSizes <- PS12
+  PullFixed = FALSE
   MaxRoutes = 1
   MaxSubRoutes = 0
   Shapes <- ShapesLong
